@@ -237,7 +237,41 @@ func enumShort(h *harness) {
 
 // diag measures the cost of one case and prints the outcome of a few records (SEQ_INPUT_DIAG=1; not part of the check).
 func diag() {
-	h := &harness{w: loadWorld(configPath), seen: map[string]bool{}}
+	h := &harness{w: loadWorld(configPath), seen: map[string]bool{}, confirmed: map[string]int{}}
+	if os.Getenv("SEQ_INPUT_DIAG") == "crosscheck" {
+		// verdicts of single() over the sub-domain of (A) with a long msgid, for comparison with the batched run
+		tally := map[string]int{}
+		for _, lim := range []limits{scaled, prod} {
+			ms := menus(lim)
+			idx := make([]int, len(ms))
+			for {
+				dev := 0
+				for _, x := range idx {
+					if x != 0 {
+						dev++
+					}
+				}
+				if idx[5] == 3 && (lim.name == "scaled" || dev <= 2) {
+					k, _ := h.single(lim, stdSentinels, buildRecord(ms, idx))
+					tally[k]++
+				}
+				i := len(idx) - 1
+				for i >= 0 {
+					idx[i]++
+					if idx[i] < len(ms[i].opts) {
+						break
+					}
+					idx[i] = 0
+					i--
+				}
+				if i < 0 {
+					break
+				}
+			}
+		}
+		fmt.Println(tally)
+		return
+	}
 	if f := os.Getenv("SEQ_INPUT_PROF"); f != "" {
 		fh, _ := os.Create(f)
 		pprof.StartCPUProfile(fh)
